@@ -26,7 +26,8 @@ Fixpoint decode_view (fuel : nat) (s : sexp) : view :=
       | 11%Z => VEither 3 (as_nat (nth_s 1 s)) (decode_view f (nth_s 2 s))
       | 5%Z => VOpt (as_opt (decode_view f) (nth_s 1 s))
       | 6%Z => VVec (kids (nth_s 1 s))
-      | _ => VStatic (kids (nth_s 1 s))
+      | 7%Z => VStatic (kids (nth_s 1 s))
+      | _ => VKeyed (map (fun kv => (as_N (nth_s 0 kv), decode_view f (nth_s 1 kv))) (as_list (nth_s 1 s)))
       end
   end.
 
@@ -63,6 +64,7 @@ Fixpoint node_sexps (old : list N) (s : st) : list (N * sexp) :=
   | STuple _ l | SStatic l _ => flat_map (node_sexps old) l
   | SEither _ _ c | SOptSome c => node_sexps old c
   | SVec l mk => flat_map (node_sexps old) l ++ [(mk, Lst [Num 1; s_old old mk])]
+  | SKeyed rows mk _ => flat_map (fun r => node_sexps old (snd r)) rows ++ [(mk, Lst [Num 1; s_old old mk])]
   end.
 
 (** ids of the nodes below the parent: its children and, for the elements among them, theirs *)
@@ -71,6 +73,7 @@ Fixpoint inner_ids (s : st) (present : list N) : list N :=
   | SEl id _ _ _ kids c => if memN id present then kids ++ inner_ids c kids else []
   | STuple _ l | SStatic l _ | SVec l _ => flat_map (fun x => inner_ids x present) l
   | SEither _ _ c | SOptSome c => inner_ids c present
+  | SKeyed rows _ _ => flat_map (fun r => inner_ids (snd r) present) rows
   | _ => []
   end.
 Definition subtree_ids (s : st) (dom : list N) : list N := dom ++ inner_ids s dom.
